@@ -344,6 +344,44 @@ pub fn run(rep: &mut Rep) {
         }
     }
     run_given_up_while_resending(rep);
+    with_traffic_in_the_other_direction(rep);
+}
+
+/// The send window is about the client's own publishes only. Whatever the broker sends - QoS 0/1/2 messages (with and without
+/// a subscription), re-deliveries, PUBREL (also for identifiers it never used), stray acknowledgements, PINGRESP - and
+/// whatever else the client does in between (subscribes, unsubscribes, pings) leaves it alone.
+fn with_traffic_in_the_other_direction(rep: &mut Rep) {
+    let a = Alpha {
+        kinds: vec![Kind::Pub1, Kind::Pub2, Kind::Pub1, Kind::Pub0, Kind::Sub, Kind::Unsub, Kind::Ping],
+        max_ops: 40,
+        max_conc: 8,
+        pub_ack_variants: vec![(0, 0), (3, 1), (1, 0)],
+        sub_ack_variants: vec![(0, 0)],
+        inbound: vec![(2, 1, false, SubSel::Absent), (2, 2, false, SubSel::Op(0)), (2, 1, true, SubSel::Absent), (1, 1, false, SubSel::Absent), (1, 2, false, SubSel::Op(0)), (0, 0, false, SubSel::Op(0))],
+        pubrels: vec![1, 2, 3],
+        max_inbound: 60,
+        ..Default::default()
+    };
+    let walks = if rep.quick() { 300 } else { 8000 };
+    rep.note(&format!("traffic in the other direction: {walks} PRNG walks of 90 actions under Receive Maximum 1 / 2 / 3 mixing the client's own QoS 0/1/2 publishes, subscribes, unsubscribes and pings with inbound QoS 0/1/2 messages, re-deliveries and PUBREL packets whose identifiers overlap the client's own (1, 2, 3): accepted / refused exactly by the client's own outstanding publishes, H3 conservation at every step, probe at the end"));
+    for k in 0..walks {
+        let id = format!("inbound-walk:{k}");
+        if !rep.take(8_500_000 + k, &id) {
+            continue;
+        }
+        let seed = rep.seed.wrapping_mul(1_000_003).wrapping_add(k);
+        let mut rng = Rng::new(seed);
+        let mut w = World::boot(WorldCfg { seed, receive_max: Some(1 + (k % 3) as u16), h3: true, order: (k % 4) as u8, ..Default::default() });
+        let acts = run_walk(&mut w, &a, &mut rng, 90);
+        let pubrels = acts.iter().filter(|x| matches!(x, Act::InRel(_))).count();
+        probe_and_report(rep, &mut w, &id);
+        rep.add("evaluations", 1);
+        rep.add("walks_with_inbound_traffic", 1);
+        rep.add("inbound_pubrels_in_quota_histories", pubrels as i64);
+        rep.distinct(&("inbound-walk", w.shape()));
+        harvest(rep, &mut w, &id);
+        add_counters(rep, &w);
+    }
 }
 
 /// The application gives up on run() (drops its future, as a timeout around it does) while the resumed connection does not
